@@ -486,4 +486,3 @@ func decideRegions(regs []*Obligation) {
 		}
 	}
 }
-
